@@ -324,31 +324,17 @@ impl Type {
                 }
                 Token::Array => {
                     if let Some(Ok(next_token)) = tokens.peek() {
-                        let next_is_dict = *next_token == Token::DictEntryStart;
+                        if *next_token == Token::DictEntryStart {
+                            tokens.next();
+                            return Self::parse_dict_entry(tokens).map(Some);
+                        }
                         let elem_type = Self::parse_next_type(tokens, None)?;
                         match elem_type {
-                            Some(Type::Container(Container::Dict(_, _))) if next_is_dict => {
-                                Ok(elem_type)
-                            }
                             Some(elem_type) => {
                                 Ok(Some(Type::Container(Container::Array(Box::new(elem_type)))))
                             }
                             None => Err(Error::InvalidSignature),
                         }
-                    } else {
-                        Err(Error::InvalidSignature)
-                    }
-                }
-                Token::DictEntryStart => {
-                    let key_type = Self::parse_next_base(tokens)?;
-                    if let Some(value_type) = Self::parse_next_type(tokens, None)? {
-                        if tokens.next() != Some(Ok(Token::DictEntryEnd)) {
-                            return Err(Error::InvalidSignature);
-                        }
-                        Ok(Some(Type::Container(Container::Dict(
-                            key_type,
-                            Box::new(value_type),
-                        ))))
                     } else {
                         Err(Error::InvalidSignature)
                     }
@@ -375,6 +361,25 @@ impl Type {
             Ok(None)
         } else {
             // we are in a struct and need to stop at a delimiter
+            Err(Error::InvalidSignature)
+        }
+    }
+
+    /// Parses the rest of a dict entry. The leading `a{` must already be consumed.
+    /// Dict entries are only valid directly inside an array.
+    fn parse_dict_entry<I: Iterator<Item = Result<Token>>>(
+        tokens: &mut Peekable<I>,
+    ) -> Result<Type> {
+        let key_type = Self::parse_next_base(tokens)?;
+        if let Some(value_type) = Self::parse_next_type(tokens, None)? {
+            if tokens.next() != Some(Ok(Token::DictEntryEnd)) {
+                return Err(Error::InvalidSignature);
+            }
+            Ok(Type::Container(Container::Dict(
+                key_type,
+                Box::new(value_type),
+            )))
+        } else {
             Err(Error::InvalidSignature)
         }
     }
